@@ -83,8 +83,9 @@ def split(prop, tier, seed):
     cases = [dict(hours=h, freq=f, interval='d', storage=st, orderbook=rng.choice([None, 'last', 'first']), pseed=rng.randint(0, 999))
              for (h, f) in ((48, 'h'), (49, 'h'), (55, 'h'), (52, '4h'), (24, 'h'), (30, 'h')) for st in (False, True)]
     rng.shuffle(cases)
-    cases = [dict(hours=49, freq='h', interval='d', storage=False, orderbook='last', pseed=7), dict(hours=72, freq='4h', interval='d', storage=True, orderbook='first', pseed=8)] + cases
-    b = run_cases(sc.check_split, cases[:_n(tier, 10, 14)], 'split vs unsplit on a two-node portfolio (optionally with a storage and with an order book as first / last asset, one order per day); horizons aligned / one step over / several steps over the interval size; value, balance, step numbering, DCF accounting of the split problem',
+    cases = [dict(hours=49, freq='h', interval='d', storage=False, orderbook='last', pseed=7), dict(hours=72, freq='4h', interval='d', storage=True, orderbook='first', pseed=8),
+             dict(hours=48, freq='h', interval='d', storage=False, orderbook=None, plant=True, pseed=9)] + cases
+    b = run_cases(sc.check_split, cases[:_n(tier, 10, 14)], 'split vs unsplit on a two-node portfolio (optionally with a storage, with an order book as first / last asset, one order per day, with a plant whose fuel efficiency differs from day to day); horizons aligned / one step over / several steps over the interval size; value, balance, step numbering, DCF accounting of the split problem',
                   'horizons up to 72 h, interval d', 60 if tier == 'quick' else 300)
     b['failures'] = [f for f in b['failures'] if f['name'].startswith(prop) or f.get('error')]
     return dict(bounded=b)
@@ -138,10 +139,10 @@ def unit_commitment(prop, tier, seed):
 @provider('C16')
 def scaled(prop, tier, seed):
     rng = random.Random(seed)
-    cases = [dict(T=T, window=w, norm=S, scale=s, rate=r, pseed=rng.randint(0, 999)) for T in (8,) for w in ((0, 8), (2, 6), (3, 8)) for S in (1., 4.)
+    cases = [dict(T=T, window=w, norm=S, scale=s, rate=r, base=rng.choice(['storage', 'must_take', 'load']), pseed=rng.randint(0, 999)) for T in (8,) for w in ((0, 8), (2, 6), (3, 8)) for S in (1., 4.)
              for s in (0.5, 1., 2.) for r in (0., 0.25)]
     rng.shuffle(cases)
-    return dict(bounded=run_cases(sc.check_scaled, cases[:_n(tier, 10, 36)], 'ScaledAsset(Storage) held at a fixed scale vs the base asset with capacities x s/S less s x rate x active duration; windows at / after the grid start',
+    return dict(bounded=run_cases(sc.check_scaled, cases[:_n(tier, 10, 36)], 'ScaledAsset(Storage / must-take contract / fixed load) held at a fixed scale vs the base asset with capacities x s/S less s x rate x active duration; windows at / after the grid start',
                                   'hourly grid of 8 steps', 50 if tier == 'quick' else 300))
 
 
@@ -334,3 +335,11 @@ def coarse_kinds(prop, tier, seed):
     rng.shuffle(cases)
     return dict(bounded=run_cases(sc.check_coarse_kinds, cases[:_n(tier, 12, 12)], 'assets of four kinds on a coarser frequency than the portfolio (4h / 6h on hourly grids incl. a partial last interval; weekly on a daily CET grid over the DST switch): set-up succeeds, well-formed, constant rate within each coarse interval, transport efficiency per fine step, optimum = fine portfolio + equalities (uniform grids)',
                                   'grids of 14-30 steps', 50 if tier == 'quick' else 200))
+
+
+@provider('C03')
+def optimize_random(prop, tier, seed):
+    rng = random.Random(seed + 73)
+    cases = [dict(seed=rng.randint(0, 999999), mip=rng.random() < .4, all_fixed=rng.random() < .15, shuffle=rng.random() < .5) for _ in range(_n(tier, 80, 600))]
+    return dict(bounded=run_cases(sc.check_optimize_random, cases, 'random small problems handed to OptimProblem.optimize (1-5 variables, 0-4 rows of random types U/L/S/N, duplicated / shuffled mapping rows, boolean flags on variables with bounds other than 0/1, all variables fixed): feasibility, row satisfaction by type, boolean flags, value = -c.x, optimality and failure <=> infeasible against scipy milp',
+                                  '<= 5 variables, <= 4 rows', 60 if tier == 'quick' else 400))
